@@ -27,6 +27,11 @@ main(int argc,char* argv[]) {
     if (cmd.help_mode())
         return 0;
 
+    if (const char* arg = cmd.unknown_argument()) {
+        std::cout << "Unknown argument: " << arg << ", try the -h option" << std::endl;
+        return 1;
+    }
+
     if (geom_filename=="") {
         std::cout << "Not enough arguments, try the -h option" << std::endl;
         return 1;
